@@ -20,9 +20,9 @@ EXTENDS Integers, Sequences, FiniteSets, TLC
 
 CONSTANTS Names,      \* owner names the environment may use (canonical form)
           Queries,    \* query names for bounds()
-          OpTypes,    \* rdata types touched by update operations (subset of {"NS","A","TXT"})
+          OpTypes,    \* rdata types touched by update operations (subset of {"NS","A","TXT","CNAME"})
           RdIds,      \* rdata identifiers
-          LoadSets,   \* set of record sets a load may install; a record is <<owner, type, id>>
+          LoadSets,   \* set of record sequences a load may install; a record is <<owner, type, id>>
           MaxOps,     \* bound on operations per transaction   (model checking only)
           MaxTxns     \* bound on transactions per history     (model checking only)
 
@@ -78,8 +78,22 @@ ContentOf(R) == [key \in {<<r[1], r[2]>> : r \in R} |->
                     {r[3] : r \in {x \in R : x[1] = key[1] /\ x[2] = key[2]}}]
 HasApex(c) == <<Apex, "SOA">> \in DOMAIN c
 
-PutC(w, n, ty, S) == [key \in DOMAIN w \cup {<<n, ty>>} |-> IF key = <<n, ty>> THEN S ELSE w[key]]
-AddC(w, n, ty, k) == PutC(w, n, ty, IF <<n, ty>> \in DOMAIN w THEN w[<<n, ty>>] \cup {k} ELSE {k})
+(* CNAME exclusivity at a node (dns.node.Node, RFC 1034 3.6.2 / RFC 2181 10.1; "most recent
+   change wins"): storing a CNAME rdataset evicts every other rdataset of the node (this universe
+   has no NSEC/KEY-like types, which could stay); storing any other rdataset evicts the CNAME.
+   In particular a CNAME stored at a delegation point evicts its NS rdataset. *)
+Evicted(w, n, ty) == IF ty = "CNAME" THEN {key \in DOMAIN w : key[1] = n /\ key[2] # "CNAME"}
+                     ELSE {<<n, "CNAME">>}
+PutC(w, n, ty, S) == [key \in (DOMAIN w \ Evicted(w, n, ty)) \cup {<<n, ty>>} |->
+                        IF key = <<n, ty>> THEN S ELSE w[key]]
+(* adding to a singleton type (CNAME, SOA) replaces its rdata *)
+AddC(w, n, ty, k) == PutC(w, n, ty, IF <<n, ty>> \in DOMAIN w /\ ty \notin {"CNAME", "SOA"}
+                                   THEN w[<<n, ty>>] \cup {k} ELSE {k})
+(* a load adds its records one by one, in order (the order matters only where a CNAME and other
+   data are loaded at the same owner) *)
+RECURSIVE LoadFrom(_, _)
+LoadFrom(w, s) == IF s = <<>> THEN w ELSE LoadFrom(AddC(w, s[1][1], s[1][2], s[1][3]), Tail(s))
+LoadSeq(s) == LoadFrom(EmptyContent, s)
 DelRdsC(w, n, ty) == [key \in DOMAIN w \ {<<n, ty>>} |-> w[key]]
 DelRdC(w, n, ty, k) ==
     IF <<n, ty>> \notin DOMAIN w THEN w
@@ -101,10 +115,10 @@ Bounds(c, q) == BoundsIn(Visible(c), Cuts(c), Canon(q))
 Init == /\ content = EmptyContent /\ working = EmptyContent
         /\ mode = "idle" /\ nops = 0 /\ ntxn = 0
 
-(* a replacement transaction installing the record set R, in whatever order *)
-Load(R) == /\ mode = "idle"
-           /\ HasApex(ContentOf(R))
-           /\ content' = ContentOf(R)
+(* a replacement transaction installing the records of the sequence s, in that order *)
+Load(s) == /\ mode = "idle"
+           /\ HasApex(LoadSeq(s))
+           /\ content' = LoadSeq(s)
            /\ ntxn' = ntxn + 1
            /\ UNCHANGED <<working, mode, nops>>
 
@@ -115,8 +129,10 @@ Begin == /\ mode = "idle" /\ HasApex(content)
 InTxn == mode = "txn"
 Did(w) == /\ working' = w /\ nops' = nops + 1 /\ UNCHANGED <<content, mode, ntxn>>
 
-Put(n, ty, S) == InTxn /\ S # {} /\ Did(PutC(working, n, ty, S))        \* txn.replace(n, rdataset)
-Add(n, ty, k) == InTxn /\ Did(AddC(working, n, ty, k))                  \* txn.add(n, ttl, rdata)
+(* the zone keeps its apex SOA: no CNAME is stored at the apex (it would evict the SOA) *)
+Storable(n, ty) == ~(n = Apex /\ ty = "CNAME")
+Put(n, ty, S) == InTxn /\ S # {} /\ Storable(n, ty) /\ Did(PutC(working, n, ty, S))   \* txn.replace(n, rdataset)
+Add(n, ty, k) == InTxn /\ Storable(n, ty) /\ Did(AddC(working, n, ty, k))             \* txn.add(n, ttl, rdata)
 DelRd(n, ty, k) == InTxn /\ Did(DelRdC(working, n, ty, k))              \* txn.delete(n, rdata)
 DelRds(n, ty) == InTxn /\ Did(DelRdsC(working, n, ty))                  \* txn.delete(n, type)
 DelNode(n) == InTxn /\ n # Apex /\ Did(DelNodeC(working, n))            \* txn.delete(n)
